@@ -13,8 +13,8 @@ res=$dst/confirm.txt; : > $res
 git apply $dst/patch.diff && echo "apply: ok" >> $res || { echo "apply: FAILED" >> $res; }
 (go build ./... > /tmp/confirm/$id.build 2>&1) && echo "build: ok" >> $res || echo "build: FAILED" >> $res
 (go test -vet=off -count=1 ./client/... ./crypto/... ./gossip/... ./log/... ./storage/bplus/... ./testutils/spec/... > /tmp/confirm/$id.pinned 2>&1) && echo "pinned suite with change: pass" >> $res || echo "pinned suite with change: FAIL" >> $res
-sh $dst/run.sh $wt > /tmp/confirm/$id.with 2>&1; echo "demo with change: exit $? (expected non-zero)" >> $res
+bash $dst/run.sh $wt > /tmp/confirm/$id.with 2>&1; echo "demo with change: exit $? (expected non-zero)" >> $res
 git apply -R $dst/patch.diff
-sh $dst/run.sh $wt > /tmp/confirm/$id.without 2>&1; echo "demo without change: exit $? (expected 0)" >> $res
+bash $dst/run.sh $wt > /tmp/confirm/$id.without 2>&1; echo "demo without change: exit $? (expected 0)" >> $res
 cd /; git -C /repo worktree remove --force $wt; rm -rf /var/tmp/cluster-test/* 2>/dev/null
 cat $res
